@@ -1495,6 +1495,7 @@ package scipipe
 //@   loop 0 invariant forwarded-in-arrival-order[C04,C08]: forall o string :: o in p.PathFuncs && !streamPort(p, o) ==> outN[p.outPorts[o]] == old(outN)[p.outPorts[o]] + nRecv(p) - len(startedTasks) && (forall x int :: 0 <= x && x < nRecv(p) - len(startedTasks) ==> outAt[p.outPorts[o]][old(outN)[p.outPorts[o]] + x] == taskAt(p, x).OutIPs[o])
 //@   loop 0 invariant streamed-at-start[C17]: forall o string :: o in p.PathFuncs && streamPort(p, o) ==> outN[p.outPorts[o]] == old(outN)[p.outPorts[o]] + nRecv(p)
 //@   loop 1 invariant wf: wfProcess(p) && wfRunPorts(p) && curTasks[p] != nil && taskChanOwner(curTasks[p]) == p && tasks == curTasks[p] && taskOK(t) && t.Process == p && t == taskAt(p, nRecv(p) - 1) && nRecv(p) >= 1
+//@   loop 1 invariant ports-ok: forall o string :: o in t.OutIPs ==> o != "" && o in p.PathFuncs && o in p.outPorts && p.outPorts[o] != nil && wfOutPort(p.outPorts[o]) && validIP(t.OutIPs[o])
 //@   loop 1 invariant vis: forall o string :: $visited[o] ==> o in t.OutIPs
 //@   loop 1 invariant queue-len: 0 <= len(startedTasks) && len(startedTasks) <= nRecv(p) - 1
 //@   loop 1 invariant queue-is-fifo: forall j int :: 0 <= j && j < len(startedTasks) ==> startedTasks[j] == taskAt(p, nRecv(p) - 1 - len(startedTasks) + j)
@@ -1503,6 +1504,7 @@ package scipipe
 //@   loop 1 invariant forwarded: forall o string :: o in p.PathFuncs && !streamPort(p, o) ==> outN[p.outPorts[o]] == old(outN)[p.outPorts[o]] + nRecv(p) - 1 - len(startedTasks) && (forall x int :: 0 <= x && x < nRecv(p) - 1 - len(startedTasks) ==> outAt[p.outPorts[o]][old(outN)[p.outPorts[o]] + x] == taskAt(p, x).OutIPs[o])
 //@   loop 1 invariant streamed: forall o string :: o in p.PathFuncs && streamPort(p, o) ==> outN[p.outPorts[o]] == old(outN)[p.outPorts[o]] + nRecv(p) - ite($visited[o], 0, 1)
 //@   loop 2 invariant wf: wfProcess(p) && wfRunPorts(p) && curTasks[p] != nil && taskChanOwner(curTasks[p]) == p && (tasks == nil || tasks == curTasks[p]) && taskOK(nextTask) && nextTask.Process == p && nextTask == taskAt(p, nRecv(p) - len(startedTasks) - 1)
+//@   loop 2 invariant ports-ok: forall o string :: o in nextTask.OutIPs ==> o != "" && o in p.PathFuncs && o in p.outPorts && p.outPorts[o] != nil && wfOutPort(p.outPorts[o]) && validIP(nextTask.OutIPs[o])
 //@   loop 2 invariant closed-seen: tasks == nil ==> nRecv(p) == chanTotal(curTasks[p])
 //@   loop 2 invariant vis: forall o string :: $visited[o] ==> o in nextTask.OutIPs
 //@   loop 2 invariant queue-len: 0 <= len(startedTasks) && len(startedTasks) <= nRecv(p) - 1
